@@ -38,10 +38,18 @@ type lev struct {
 	H   int    `json:"h,omitempty"`   // 0,1
 	Sel string `json:"sel,omitempty"` // zero one own stale other
 	D   int64  `json:"d,omitempty"`   // ttl or advance, milliseconds
+	Via string `json:"via,omitempty"` // DHT leg only: node the request enters through ("A","B")
 }
 
 func (e lev) label() string {
+	if e.Via != "" {
+		v := e.Via
+		e.Via = ""
+		return e.label() + "@" + v
+	}
 	switch e.T {
+	case "joinO", "joinN", "leave":
+		return e.T
 	case "acq":
 		return fmt.Sprintf("acq(h%d,%dms)", e.H+1, e.D)
 	case "ren":
@@ -135,6 +143,18 @@ type c19Step struct {
 
 // step runs one event on the store and judges the outcome against the statement.
 func (m *c19Model) step(kv chord.KVProvider, key []byte, e lev) c19Step {
+	return m.stepVia(kv, func() (uint64, error) {
+		ex, err := kv.Export(bg, [][]byte{key})
+		if err != nil || len(ex) != 1 {
+			return 0, fmt.Errorf("export: %v (len %d)", err, len(ex))
+		}
+		return ex[0].GetLeaseToken(), nil
+	}, key, e)
+}
+
+// stepVia: kv is the lease API the holders talk to (a store, or a DHT node); probe reads the
+// token currently stored for the key.
+func (m *c19Model) stepVia(kv chord.LeaseKV, probe func() (uint64, error), key []byte, e lev) c19Step {
 	vtime.SetNowNanos(m.Now)
 	st := m.status()
 	var res, want, tokrel string
@@ -223,18 +243,18 @@ func (m *c19Model) step(kv chord.KVProvider, key []byte, e lev) c19Step {
 		return s
 	}
 	// every attempt that fails changes nothing, every success stores exactly the granted token
-	ex, err := kv.Export(bg, [][]byte{key})
-	if err != nil || len(ex) != 1 {
-		s.Viol, s.What = "probe:export-failed", fmt.Sprint("export after ", e.label(), ": ", err)
+	stored, err := probe()
+	if err != nil {
+		s.Viol, s.What = "probe:failed", fmt.Sprint("reading the stored token after ", e.label(), ": ", err)
 		return s
 	}
 	wantTok := uint64(0)
 	if m.Rec != nil {
 		wantTok = m.Rec.Token
 	}
-	if ex[0].GetLeaseToken() != wantTok {
+	if stored != wantTok {
 		s.Viol = fmt.Sprintf("%s:%s:lease=%s:token=%s:got=%s:stored-token-differs", e.T, ttlok, st, tokrel, res)
-		s.What = fmt.Sprintf("after %s (-> %s) the stored token is %d, the model's current token is %d", e.label(), res, ex[0].GetLeaseToken(), wantTok)
+		s.What = fmt.Sprintf("after %s (-> %s) the stored token is %d, the model's current token is %d", e.label(), res, stored, wantTok)
 	}
 	return s
 }
@@ -503,9 +523,6 @@ func c19(c *report.Check) {
 	if c.Thorough() {
 		depth = 8
 	}
-	if v := os.Getenv("KVSEQ_DEBUG_DEPTH"); v != "" {
-		fmt.Sscan(v, &depth)
-	}
 	dist := report.NewDistinct(10)
 	totalStates, totalTrans, aba := 0, 0, 0
 	perBackend := map[string]any{}
@@ -515,9 +532,6 @@ func c19(c *report.Check) {
 	}
 	for _, hm := range hms {
 		for _, name := range backendNames {
-			if o := os.Getenv("KVSEQ_DEBUG_ONLY"); o != "" && o != name {
-				continue
-			}
 			bk, err := newBackend(name, hm.Fn)
 			if err != nil {
 				c.Internal(err.Error())
@@ -525,7 +539,6 @@ func c19(c *report.Check) {
 			}
 			env := &c19Env{bk: bk}
 			dir := scratchDir()
-			tStart := time.Now()
 			type st struct {
 				path []lev
 				tok  [2][2]uint64
@@ -578,14 +591,20 @@ func c19(c *report.Check) {
 				frontier = next
 			}
 			env.bk.close()
-			if os.Getenv("KVSEQ_DEBUG") != "" {
-				fmt.Fprintln(os.Stderr, "c19", name, hm.Name, "states", states, "trans", trans, "elapsed", time.Since(tStart))
-			}
 			perBackend[name+"/"+hm.Name] = map[string]int{"states": states, "transitions": trans, "frontier_left": len(frontier)}
 			totalStates += states
 			totalTrans += trans
 		}
 	}
+	// ---- through the DHT
+	dhtDepth := 4
+	if c.Thorough() {
+		dhtDepth = 5
+	}
+	ds, dt, dl := c19DHT(c, dist, dhtDepth)
+	perBackend["dht/memory"] = map[string]int{"states": ds, "transitions": dt, "frontier_left": dl}
+	totalStates += ds
+	totalTrans += dt
 	vtime.Unset()
 	c.Set("states", totalStates)
 	c.Set("transitions", totalTrans)
@@ -601,7 +620,7 @@ func c19(c *report.Check) {
 		"a grant with ttl d expires at some instant in [now+floor(d), now+d]; an attempt made at an instant inside that window (for whole seconds: exactly at the expiry instant) may go either way, the model then follows the store and later outcomes must be consistent with what was observed",
 		"tokens are compared by value: a remembered token that coincides with the current token value counts as current (token values are expiry instants; coincidences are counted in token_value_coincidences)",
 		"releasing with the current token succeeds even after expiry as long as nobody re-acquired (statement: a release only with the current token)",
-		"the DHT leg (LocalNode lease forwarding, churn) is not part of this check")
+		"DHT leg: real chord LocalNodes over memory stores called directly (as the repository's tests do), ring {A} / {A,B} with B joining as the new owner of the lease key or elsewhere and leaving again (at most 2 membership changes per history), maintenance run to a fix-point after each change, requests entering through A or B; sequential histories only — requests overlapping a key transfer, node failure and more than two nodes are not covered (C05-C07 cover transfers under concurrency)")
 }
 
 func c19Replay(c *report.Check, raw []byte) {
@@ -615,6 +634,14 @@ func c19Replay(c *report.Check, raw []byte) {
 		c.Internal(err.Error())
 		return
 	}
+	if r.Backend == "dht" {
+		if dr := c19DHTRun(r.Path); dr.Err != nil {
+			c.Internal(dr.Err.Error())
+		} else if dr.Viol != "" {
+			c.Violation(fmt.Sprintf("c19:%s:%s", dr.Viol, strings.Join(levLabels(r.Path), ";")), dr.What, r)
+		}
+		return
+	}
 	bk, err := newBackend(r.Backend, hashByName(r.Hash))
 	if err != nil {
 		c.Internal(err.Error())
@@ -623,9 +650,6 @@ func c19Replay(c *report.Check, raw []byte) {
 	defer bk.close()
 	env := &c19Env{bk: bk}
 	res := env.run(r.Path)
-	if os.Getenv("KVSEQ_DEBUG") != "" {
-		fmt.Fprintln(os.Stderr, "replay classes:", res.Classes, "key:", res.Key)
-	}
 	if res.Viol != "" {
 		c.Violation(fmt.Sprintf("c19:%s:%s:%s:%s", r.Backend, r.Hash, res.Viol, strings.Join(levLabels(r.Path), ";")), res.What, r)
 	}
